@@ -132,6 +132,7 @@ def run(ctx: Context) -> None:
            f"scheme/host/port <- {got}")
     # ---- R5 host form
     _r5(ctx)
+    _authority_grid(ctx)
     # ---- R6  (decided by interpreting include_request_headers up to its return for a grid of inputs - independent of how the
     #           Host value is computed: if/else, conditional expression, helper ...)
     from ..norm import run_to
@@ -269,6 +270,50 @@ def _r3(ctx: Context) -> None:
     rep.floor("C19.R3", "text parameters of public entry points", n, 25)
 
 
+def _authority_grid(ctx: Context) -> None:
+    """Every authority formatter evaluated for a registered name and for an IPv6 literal that ARRIVES bracketed (explicit URL components, an Origin built by the caller):
+    the host is passed through - no second pair of brackets, nothing dropped.  (An unbracketed literal from URL parsing is R5 / KF19.)"""
+    from ..norm import UNKNOWN, peval, run_to
+
+    rep = ctx.rep
+    rep.rule("C19.R10", "authority formatting evaluated over the host grid {registered name, bracketed IPv6 literal given as an explicit component}: the host appears once, as given")
+    mods = [ctx.prog.module("httpcore._models")] + list(ctx.names("async").modules()) + list(ctx.names("sync").modules())
+    n_eval = 0
+    for m in mods:
+        for f in m.all_functions():
+            sinks: list[ast.expr] = []
+            for n in own_nodes(f.node):
+                if isinstance(n, ast.BinOp) and isinstance(n.op, ast.Mod) and isinstance(n.left, ast.Constant) and isinstance(n.left.value, bytes) \
+                        and (b"%b:%d" in n.left.value or b"://%b" in n.left.value):
+                    sinks.append(n)
+                elif isinstance(n, ast.Tuple) and len(n.elts) == 2 and isinstance(n.elts[0], ast.Constant) and n.elts[0].value == b"Host":
+                    sinks.append(n.elts[1])
+            if not sinks:
+                continue
+            tree = "async" if "._async" in f.module.name else ("sync" if "._sync" in f.module.name else "shared")
+            for sk in sinks:
+                outs = {}
+                for hv in (b"example.com", b"[2001:db8::1]"):
+                    env: dict = {"DEFAULT_PORTS.get(url.scheme)": 80, "DEFAULT_PORTS.get(self.scheme)": 80}
+                    for x in own_nodes(f.node):
+                        if isinstance(x, ast.Attribute) and x.attr in ("host", "port", "scheme", "target"):
+                            env[norm(x)] = {"host": hv, "port": 8080, "scheme": b"http", "target": b"/"}[x.attr]
+                    if run_to(list(f.node.body), sk, env) != "hit":
+                        continue
+                    v = peval(sk, env)
+                    if isinstance(v, bytes) and (hv.strip(b"[]") in v):
+                        outs[hv] = v
+                if not outs:
+                    continue
+                n_eval += 1
+                bad = {hv: v for hv, v in outs.items() if v.count(hv) != 1 or b"[[" in v or b"]]" in v or (not hv.startswith(b"[") and b"[" in v)}
+                rep.ob("C19.R10", f"{tree}|{f.short}|authority-grid:{norm(sk)[:50]}", not bad, where(f, sk),
+                       f"`{ast.unparse(sk)[:60]}` gives {dict((k.decode(), v.decode()) for k, v in outs.items())}" if not bad else
+                       f"`{ast.unparse(sk)[:60]}` gives {dict((k.decode(), v.decode()) for k, v in bad.items())}: a host that is already an IP-literal in brackets (explicit URL components, "
+                       "an Origin the caller built) is bracketed a second time / altered - the Host header, bytes(URL) and the CONNECT target are malformed authorities")
+    rep.floor("C19.R10", "authority formatters evaluated over the host grid", n_eval, 4)
+
+
 def _r5(ctx: Context) -> None:
     """Authority-formatting sinks: a bytes %-format (or concatenation) that places a `.host` next to a ':' port
     or after '://' must bracket hosts containing ':'."""
@@ -281,7 +326,15 @@ def _r5(ctx: Context) -> None:
                 if isinstance(n, ast.BinOp) and isinstance(n.op, ast.Mod) and isinstance(n.left, ast.Constant) and isinstance(n.left.value, bytes):
                     fmt = n.left.value
                     args = n.right.elts if isinstance(n.right, ast.Tuple) else [n.right]
-                    if any(norm(a).endswith(".host") for a in args) and (b"%b:%d" in fmt or b"://%b" in fmt):
+
+                    def hosty(a: ast.AST) -> bool:
+                        # the host attribute itself, an expression over it, or a local bound from it (bracketing helper, conditional)
+                        if any(isinstance(x, ast.Attribute) and x.attr == "host" for x in ast.walk(a)):
+                            return True
+                        return isinstance(a, ast.Name) and any(
+                            isinstance(st, ast.Assign) and norm(st.targets[0]) == a.id and any(isinstance(x, ast.Attribute) and x.attr == "host" for x in ast.walk(st.value))
+                            for st in own_nodes(f.node))
+                    if any(hosty(a) for a in args) and (b"%b:%d" in fmt or b"://%b" in fmt):
                         sinks.append((f, n, "format"))
                 elif isinstance(n, ast.Assign) and norm(n.value) == "url.host" and norm(n.targets[0]) == "header_value":
                     sinks.append((f, n, "host-header"))
@@ -291,6 +344,16 @@ def _r5(ctx: Context) -> None:
     for f, n, kind in sinks:
         host_args = [a for a in ast.walk(n) if isinstance(a, ast.Attribute) and a.attr == "host"]
         bracketed = False
+        if not host_args:
+            # through a local: the host attribute and a bracketing form are looked for in the local's bindings
+            for a in (n.right.elts if isinstance(n, ast.BinOp) and isinstance(n.right, ast.Tuple) else []):
+                if isinstance(a, ast.Name):
+                    for st in own_nodes(f.node):
+                        if isinstance(st, ast.Assign) and norm(st.targets[0]) == a.id:
+                            hs = [x for x in ast.walk(st.value) if isinstance(x, ast.Attribute) and x.attr == "host"]
+                            host_args = host_args or hs
+                            if hs and ("[%b]" in ast.unparse(st.value) or "b'['" in norm(st.value)):
+                                bracketed = True
         for test, pol in guards_of(n):
             if "b':'in" in norm(test):
                 bracketed = True
